@@ -17,6 +17,7 @@ RULE = (
     "class x dtype matrix (every exported class x every dtype numpy / torch / jax can put on an array) on three fixed shapes (`a b`, `...` and the scalar annotation `[None]`); literal axes of 256 … 65536. The verdict and the report (kind, axis index in the actual tensor, expected, actual) are judged "
     "by an independent oracle (oracle.spec_check). non-trivial = distinct (shape string, array shape) pair with at least one literal or marker"
 )
+RULE += " Also: one annotation object and one array object changed in place between two checks (numpy shape / dtype / resize, torch unsqueeze_ / t_ / resize_) judged like a fresh array."
 DIMS = ["0", "2", "3", "a", "c=2"]
 
 
